@@ -214,6 +214,38 @@ impl vstd::std_specs::cmp::PartialOrdSpecImpl for FeelDate {
          'requires': [('representable', 'i128::MIN <= old(self).0 + sec * 1_000_000_000 <= i128::MAX')], 'ensures': [('adds_seconds', 'r.0 == old(self).0 + sec * 1_000_000_000')]},
         {'kind': 'fn', 'src': DT, 'path': 'impl FeelDaysAndTimeDuration::fn build', 'key': 'calendar::FeelDaysAndTimeDuration::build',
          'props': P15, 'auto_props': A15, 'loops': 0, 'ret': 'r', 'ensures': [('same_duration', 'r.0 == old(self).0 && final(self).0 == old(self).0')]},
+        {'kind': 'vrs', 'file': 'calendar/durlit.vrs'},
+        dfn('impl TryFrom<&str> for FeelDate::fn try_from', 'FeelDate::try_from_text', ret='r', props=['C14', 'C15'], auto_props=['C14', 'C15', 'C05'],
+            impl_header='impl FeelDate {',
+            sig_rewrite=[(r'fn try_from\(value: &str\) -> \(r: Result<Self, Self::Error>\)', 'pub fn try_from_text(value: &str) -> (r: Result<FeelDate, DmntkError>)')],
+            body_prefix='proof { reveal_strlit("year"); reveal_strlit("month"); reveal_strlit("day"); reveal_strlit("sign"); }',
+            rewrites=[('RX', 'R9', r'RE_DATE\.captures\(value\)', 're_date_captures(value)', 1),
+                      ('RX', 'R11', r'year_match\.as_str\(\)\.parse::<i32>\(\)', 'parse_year(year_match.as_str())', 1),
+                      ('RX', 'R11', r'(\w+)\.as_str\(\)\.parse::<(u64|u32|u16|u8)>\(\)', r'parse_\2(\1.as_str())', 2),
+                      ('RX', 'R3', r'invalid_date_literal\(value\.to_string\(\)\)', 'invalid_date_lit()', 1)],
+            ensures=[('denotes_the_written_date', 'match date_caps(value@) { None => r is Err, Some(c) => match date_literal(c) { '
+                      'Some(d) => r is Ok && r->Ok_0.0 == d.0 && r->Ok_0.1 == d.1 && r->Ok_0.2 == d.2, None => r is Err } }')]),
+        {'kind': 'fn', 'src': DT, 'path': 'impl TryFrom<&str> for FeelDaysAndTimeDuration::fn try_from', 'key': 'calendar::FeelDaysAndTimeDuration::try_from_text',
+         'impl_header': 'impl FeelDaysAndTimeDuration {', 'props': ['C14', 'C15'], 'auto_props': ['C14', 'C15', 'C05'], 'loops': 0, 'ret': 'r',
+         'sig_rewrite': [(r'fn try_from\(value: &str\) -> \(r: Result<Self, Self::Error>\)', 'pub fn try_from_text(value: &str) -> (r: Result<FeelDaysAndTimeDuration, DmntkError>)')],
+         'body_prefix': 'proof { reveal_strlit("days"); reveal_strlit("hours"); reveal_strlit("minutes"); reveal_strlit("seconds"); reveal_strlit("fractional"); reveal_strlit("sign"); }',
+         'rewrites': [('RX', 'R9', r'RE_DAYS_AND_TIME\.captures\(value\)', 're_days_and_time_captures(value)', 1),
+                      ('RX', 'R11', r'(\w+)\.as_str\(\)\.parse::<(u64|u32|u16|u8)>\(\)', r'parse_\2(\1.as_str())', 4),
+                      ('RX', 'R11', r"value\.ends_with\('T'\)", 'str_ends_with_t(value)', 1),
+                      ('RX', 'R3', r'invalid_date_and_time_duration_literal\(value\.to_string\(\)\)', 'invalid_dt_literal()', 5)],
+         'splices': [{'id': 'days_fit', 'op': 'before', 'anchor': 'nanoseconds += (days as i128) * NANOSECONDS_IN_DAY;', 'text': 'assert((days as i128) * 86_400_000_000_000 <= 18_446_744_073_709_551_615i128 * 86_400_000_000_000 && (days as i128) * 86_400_000_000_000 >= 0) by (nonlinear_arith) requires 0 <= days <= 18_446_744_073_709_551_615u64;'},
+                     {'id': 'hours_fit', 'op': 'before', 'anchor': 'nanoseconds += (hours as i128) * NANOSECONDS_IN_HOUR;', 'text': 'assert((hours as i128) * 3_600_000_000_000 <= 18_446_744_073_709_551_615i128 * 3_600_000_000_000 && (hours as i128) * 3_600_000_000_000 >= 0) by (nonlinear_arith) requires 0 <= hours <= 18_446_744_073_709_551_615u64;'},
+                     {'id': 'minutes_fit', 'op': 'before', 'anchor': 'nanoseconds += (minutes as i128) * NANOSECONDS_IN_MINUTE;', 'text': 'assert((minutes as i128) * 60_000_000_000 <= 18_446_744_073_709_551_615i128 * 60_000_000_000 && (minutes as i128) * 60_000_000_000 >= 0) by (nonlinear_arith) requires 0 <= minutes <= 18_446_744_073_709_551_615u64;'},
+                     {'id': 'seconds_fit', 'op': 'before', 'anchor': 'nanoseconds += (seconds as i128) * NANOSECONDS_IN_SECOND;', 'text': 'assert((seconds as i128) * 1_000_000_000 <= 18_446_744_073_709_551_615i128 * 1_000_000_000 && (seconds as i128) * 1_000_000_000 >= 0) by (nonlinear_arith) requires 0 <= seconds <= 18_446_744_073_709_551_615u64;'}],
+         'ensures': [('denotes_the_written_components', 'match dt_caps(value@) { None => r is Err, Some(c) => match dt_literal_nanos(c, value@) { Some(n) => r is Ok && r->Ok_0.0 == n, None => r is Err } }')]},
+        {'kind': 'fn', 'src': YM, 'path': 'impl TryFrom<&str> for FeelYearsAndMonthsDuration::fn try_from', 'key': 'calendar::FeelYearsAndMonthsDuration::try_from_text',
+         'impl_header': 'impl FeelYearsAndMonthsDuration {', 'props': ['C14', 'C15'], 'auto_props': ['C14', 'C15', 'C05'], 'loops': 0, 'ret': 'r',
+         'sig_rewrite': [(r'fn try_from\(value: &str\) -> \(r: Result<Self, Self::Error>\)', 'pub fn try_from_text(value: &str) -> (r: Result<FeelYearsAndMonthsDuration, DmntkError>)')],
+         'body_prefix': 'proof { reveal_strlit("years"); reveal_strlit("months"); reveal_strlit("sign"); }',
+         'rewrites': [('RX', 'R9', r'RE_YEARS_AND_MONTHS\.captures\(value\)', 're_years_and_months_captures(value)', 1),
+                      ('RX', 'R17', r'(\w+)\.as_str\(\)\.parse::<i64>\(\)\.ok\(\)\.and_then\(\|(\w+)\| (\w+\.checked_\w+\(\w+\))\)', r'(match parse_i64(\1.as_str()) { Ok(\2) => \3, Err(_) => None })', 2),
+                      ('RX', 'R3', r'err_invalid_years_and_months_duration_literal\(value\)', 'invalid_ym_literal()', 3)],
+         'ensures': [('denotes_the_written_components', 'match ym_caps(value@) { None => r is Err, Some(c) => match ym_literal_months(c) { Some(n) => r is Ok && r->Ok_0.0 == n, None => r is Err } }')]},
         # ------------------------------------------------------------------ zone offsets and time validity
         {'kind': 'item', 'src': Z, 'path': 'enum FeelZone'},
         {'kind': 'fn', 'src': Z, 'path': 'impl FeelZone::fn new', 'key': 'calendar::FeelZone::new',
@@ -236,7 +268,34 @@ impl vstd::std_specs::cmp::PartialOrdSpecImpl for FeelDate {
          'splices': [{'id': 'printed_offset_denotes_offset', 'op': 'before', 'anchor': 'if seconds > 0 {',
                       'text': "assert((sign == '-' || sign == '+') && zone_text_denotes(sign == '-', hours as int, minutes as int, seconds as int) == *offset as int && 0 <= hours && 0 <= minutes < 60 && 0 <= seconds < 60);"}],
          },
-    ] + DURATION_FMT_PARTS + [FROM_CAPTURES],
+    ] + DURATION_FMT_PARTS + [FROM_CAPTURES] + [
+        {'kind': 'item', 'src': 'feel/src/temporal/mod.rs', 'path': 'struct FeelTime',
+         'rewrites': [('RX', 'R7', r'pub struct FeelTime\(u8, u8, u8, u64, FeelZone\);', 'pub struct FeelTime(pub u8, pub u8, pub u8, pub u64, pub FeelZone);', 1)]},
+        {'kind': 'item', 'src': 'feel/src/temporal/mod.rs', 'path': 'struct FeelDateTime',
+         'rewrites': [('RX', 'R7', r'pub struct FeelDateTime\(FeelDate, FeelTime\);', 'pub struct FeelDateTime(pub FeelDate, pub FeelTime);', 1)]},
+        {'kind': 'vrs', 'file': 'calendar/timelit.vrs'},
+        {'kind': 'fn', 'src': 'feel/src/temporal/mod.rs', 'path': 'fn parse_time_literal', 'key': 'calendar::parse_time_literal', 'props': ['C14'], 'auto_props': ['C14', 'C05'], 'loops': 0, 'ret': 'r',
+         'sig_rewrite': [(r'^(\s*)fn ', r'\1pub fn '), (r'-> \(r: Result<FeelTime>\)', '-> (r: Result<FeelTime, DmntkError>)')],
+         'body_prefix': 'proof { reveal_strlit("hours"); reveal_strlit("minutes"); reveal_strlit("seconds"); reveal_strlit("fractional"); }',
+         'rewrites': [('RX', 'R9', r'RE_TIME\.captures\(s\)', 're_time_captures(s)', 1),
+                      ('RX', 'R11', r'(\w+)\.as_str\(\)\.parse::<(u64|u32|u16|u8)>\(\)', r'parse_\2(\1.as_str())', 3),
+                      ('RX', 'R17', r'captures\.name\("fractional"\)\.map_or\(0, \|frac_match\| fraction_to_nanos\(frac_match\.as_str\(\)\)\)', '(match captures.name("fractional") { Some(frac_match) => fraction_to_nanos(frac_match.as_str()), None => 0 })', 1),
+                      ('RX', 'R3', r'Err\(crate::temporal::time::errors::invalid_time_literal\(s\.to_string\(\)\)\)', 'Err(invalid_time_lit())', 1)],
+         'ensures': [('denotes_the_written_time', 'match time_caps(s@) { None => r is Err, Some(c) => match time_literal(c) { '
+                      'Some(t) => r is Ok && r->Ok_0.0 == t.0 && r->Ok_0.1 == t.1 && r->Ok_0.2 == t.2 && r->Ok_0.3 == t.3 && r->Ok_0.4 == t.4, None => r is Err } }')]},
+        {'kind': 'fn', 'src': 'feel/src/temporal/mod.rs', 'path': 'impl TryFrom<&str> for FeelDateTime::fn try_from', 'key': 'calendar::FeelDateTime::try_from_text', 'props': ['C14'], 'auto_props': ['C14', 'C05'], 'loops': 0, 'ret': 'r',
+         'impl_header': 'impl FeelDateTime {',
+         'sig_rewrite': [(r'fn try_from\(value: &str\) -> \(r: Result<Self, Self::Error>\)', 'pub fn try_from_text(value: &str) -> (r: Result<FeelDateTime, DmntkError>)')],
+         'body_prefix': 'proof { reveal_strlit("year"); reveal_strlit("month"); reveal_strlit("day"); reveal_strlit("sign"); reveal_strlit("hours"); reveal_strlit("minutes"); reveal_strlit("seconds"); reveal_strlit("fractional"); }',
+         'rewrites': [('RX', 'R9', r'RE_DATE_AND_TIME\.captures\(value\)', 're_date_and_time_captures(value)', 1),
+                      ('RX', 'R11', r'year_match\.as_str\(\)\.parse::<i32>\(\)', 'parse_year(year_match.as_str())', 1),
+                      ('RX', 'R11', r'(\w+)\.as_str\(\)\.parse::<(u64|u32|u16|u8)>\(\)', r'parse_\2(\1.as_str())', 5),
+                      ('RX', 'R17', r'captures\.name\("fractional"\)\.map_or\(0, \|frac_match\| fraction_to_nanos\(frac_match\.as_str\(\)\)\)', '(match captures.name("fractional") { Some(frac_match) => fraction_to_nanos(frac_match.as_str()), None => 0 })', 1),
+                      ('RX', 'R3', r'Err\(err_invalid_date_time_literal\(value\)\)', 'Err(invalid_time_lit())', 1)],
+         'ensures': [('denotes_the_written_date_and_time', 'match datetime_caps(value@) { None => r is Err, Some(c) => match (date_literal(c), time_literal(c)) { '
+                      '(Some(d), Some(t)) => r is Ok && r->Ok_0.0.0 == d.0 && r->Ok_0.0.1 == d.1 && r->Ok_0.0.2 == d.2 && r->Ok_0.1.0 == t.0 && r->Ok_0.1.1 == t.1 && r->Ok_0.1.2 == t.2 && r->Ok_0.1.3 == t.3 && r->Ok_0.1.4 == t.4, '
+                      '_ => r is Err } }')]},
+    ],
 }
 
 # FeelDate comparison helpers: the calendar order, always defined
@@ -263,9 +322,9 @@ NOT_DECIDED = {
         'a duration sum / difference outside i128 nanoseconds is excluded by a stated precondition (callers are not checked to establish it)',
     ],
     'C14': [
-        'acceptance of literals (regular expressions), fraction digits through f64, IANA zone names (chrono-tz)',
+        'WHAT the regular expressions capture (A-regex: dt_caps / ym_caps / date_caps / time_caps / datetime_caps are uninterpreted) and the digit-by-digit fraction reader (iterator code): only the BOUNDED stand-in looks at them; what the captured fields DENOTE is decided (try_from_text / parse_time_literal); IANA zone names (chrono-tz)',
         'the text produced by core::fmt from the constrained arguments (A-fmt); nanoseconds_to_string (string code)',
-        'FeelDate / FeelTime / FeelDateTime Display, duration literal parsing (regex captures)',
+        'FeelDate / FeelTime / FeelDateTime Display',
     ],
     'C09': ['only the date order (FeelDate eq / partial_cmp) is decided in this unit'],
     'C05': ['abs() at the minimum integer is excluded by a stated precondition (not_min / representable): callers are not checked to establish it'],
